@@ -97,6 +97,35 @@ func posItems(f *ast.File) []posItem {
 	return out
 }
 
+// withComments: the one-line comments whose text is unique in the file join the position fields
+// (sorted by text, so that the two lists stay aligned): a token position field must not change
+// sides with a comment either
+func withComments(items []posItem, f *ast.File) []posItem {
+	cnt := map[string]int{}
+	pos := map[string]token.Pos{}
+	for _, cg := range f.Comments {
+		for _, c := range cg.List {
+			if strings.Contains(c.Text, "\n") {
+				continue
+			}
+			t := strings.Join(strings.Fields(c.Text), "")
+			cnt[t]++
+			pos[t] = c.Slash
+		}
+	}
+	var ts []string
+	for t, n := range cnt {
+		if n == 1 {
+			ts = append(ts, t)
+		}
+	}
+	sort.Strings(ts)
+	for _, t := range ts {
+		items = append(items, posItem{"comment:" + t, pos[t]})
+	}
+	return items
+}
+
 // the positions the restorer assigned are in the same relative order as the positions of the same
 // fields in a fresh parse of the printed text (fields either side leaves unset are not compared)
 func posOrderMismatch(restored, fresh []posItem) string {
@@ -257,7 +286,7 @@ func c12Check(in c12Input) (key, what string) {
 		if err != nil {
 			continue
 		}
-		if m := posOrderMismatch(posItems(af), posItems(pf)); m != "" {
+		if m := posOrderMismatch(withComments(posItems(af), af), withComments(posItems(pf), pf)); m != "" {
 			k := "c12-order"
 			if src == c12GenericAlias && strings.Contains(m, "TypeSpec.Assign") {
 				k = "generic-alias-assign-before-type-params"
